@@ -738,6 +738,40 @@ fn main() {
         let class = run.class;
         run.rec.end_case(class, true);
     }
+    // directed shapes with their own random stream (the cases of the main stream do not depend on them):
+    //  cert-then-votes  a certificate of every kind is RECEIVED while the local votes of its class are still below the
+    //                   threshold (or before any, or after they crossed); the votes then cross it: one certificate per type
+    //  s2n-pair         two or three competing blocks of one slot (one hash group) are pending for safe-to-notar at once
+    //                   (each >= 20 % and < 40 % notar, parent certified, own skip vote in) and ONE skip vote lifts
+    //                   notar + skip to >= 60 % for all of them
+    //  s2n-late-parent  a child is eligible for safe-to-notar but its parent holds no certificate yet; a LATER slot is
+    //                   finalized (the child's slot stays undecided: gap); then the parent's certificate arrives
+    let ndirected = if args.thorough { 60 } else { 9 };
+    let mut drng = Rng::new(args.seed ^ 0xD12E_C7ED);
+    for ci in 0..ndirected {
+        let rng = &mut drng;
+        let kind = ["cert-then-votes", "s2n-pair", "s2n-late-parent"][ci % 3];
+        let (stakes, shape): (Vec<u64>, &str) = if kind == "cert-then-votes" { let n = rng.range(3, 12) as usize; stake_shape(rng, n) } else {
+            // equal stakes (sometimes a few validators without stake on top): the same vote lifts every pending block
+            let mut v = vec![1u64; rng.range(10, 16) as usize];
+            if rng.chance(1, 4) { v.push(0); }
+            (v, "equal")
+        };
+        let n = stakes.len();
+        let own = rng.below(n as u64) as usize;
+        let own = if stakes[own] == 0 { 0 } else { own };
+        let mut sim = Sim::new(&keys, stakes.clone(), own);
+        run.class = 0; run.dead = false; run.safety_panic = false;
+        run.rec.begin_case(&format!("{kind}/{shape}/n{n}"));
+        run.rec.step(&format!("epoch {} {}", own, stakes.iter().map(|s| s.to_string()).collect::<Vec<_>>().join(" ")), &format!("epoch n={} total={}", n, sim.total));
+        match kind {
+            "cert-then-votes" => gen_cert_then_votes(&mut run, &mut sim, rng),
+            "s2n-pair" => gen_s2n_pair(&mut run, &mut sim, rng),
+            _ => gen_s2n_late_parent(&mut run, &mut sim, rng),
+        }
+        let class = run.class;
+        run.rec.end_case(class, true);
+    }
     for ci in 0..nboundary + cases {
         let boundary = ci < nboundary;
         let rng = if boundary { &mut erng } else { &mut rng };
@@ -805,6 +839,109 @@ fn gen_big_case(run: &mut Run, sim: &mut Sim, rng: &mut Rng) {
     let nn = order(rng, low_until(sim, 3));
     let cut = rng.below(nn.len() as u64 + 1) as usize;
     for (i, v) in nn.iter().enumerate() { run.vote(sim, if i < cut { K::Notar } else { K::Nf }, 3, h3, *v, true); }
+    run.recover(sim);
+}
+
+/// Received certificate + local votes of the same class, for every certificate kind, in 1..3 slots: the certificate arrives
+/// before any vote / between the votes (mostly before they reach the threshold) / after all of them.
+fn gen_cert_then_votes(run: &mut Run, sim: &mut Sim, rng: &mut Rng) {
+    let goff = rng.below(8) as usize * advhash::GROUP as usize;
+    let nslots = rng.range(1, 3);
+    for s in 1..=nslots {
+        let h = goff + 4 * s as usize - 3;
+        let ck = *rng.pick(&[CK::Notar, CK::Nf, CK::Skip, CK::Ff, CK::Final, CK::Final]);
+        if rng.chance(1, 2) { run.block(sim, (s, h), if s == 1 { (0, 0) } else { (s - 1, goff + 4 * (s as usize - 1) - 3) }); }
+        let signers = subset_reaching(sim, rng, if ck == CK::Ff { 4 } else { 3 });
+        let (ca, cb) = if matches!(ck, CK::Nf | CK::Skip) { let cut = rng.below(signers.len() as u64 + 1) as usize; (signers[..cut].to_vec(), signers[cut..].to_vec()) } else { (signers, vec![]) };
+        let mut voters = subset_reaching(sim, rng, if ck == CK::Ff { 4 } else { 3 });
+        rng.shuffle(&mut voters);
+        let votes: Vec<(K, usize)> = voters.iter().map(|&v| (match ck {
+            CK::Notar | CK::Ff => K::Notar,
+            CK::Nf => if rng.chance(1, 2) { K::Notar } else { K::Nf },
+            CK::Skip => if rng.chance(1, 2) { K::Skip } else { K::Sf },
+            CK::Final => K::Final,
+        }, v)).collect();
+        let at = match rng.below(4) { 0 => 0, 1 => votes.len(), _ => rng.below(votes.len() as u64 + 1) as usize };
+        for (i, (k, v)) in votes.iter().enumerate() {
+            if i == at { run.cert(sim, ck, s, h, &ca, &cb); }
+            run.vote(sim, *k, s, h, *v, false);
+            if rng.chance(1, 10) { run.vote(sim, *k, s, h, *v, false); }
+        }
+        if at == votes.len() { run.cert(sim, ck, s, h, &ca, &cb); }
+        if rng.chance(1, 3) { run.recover(sim); }
+    }
+    run.recover(sim);
+}
+
+/// Several competing blocks of slot 2 pending for safe-to-notar at once (equal stakes): the parent (slot 1) is certified, the
+/// node itself voted skip, each block has k notar votes with 20 % <= k/n < 40 %; then the skip votes arrive one by one -
+/// the one that takes notar + skip to >= 60 % does so for every pending block.  2 in 3 cases in this order, else shuffled.
+fn gen_s2n_pair(run: &mut Run, sim: &mut Sim, rng: &mut Rng) {
+    let voters: Vec<usize> = (0..sim.n).filter(|v| sim.stakes[*v] > 0).collect();
+    let n = voters.len() as u64;
+    let goff = rng.below(8) as usize * advhash::GROUP as usize;
+    let (hp, h0) = (goff + 1, goff + 5);
+    let ks: Vec<u64> = (1..n).filter(|k| 5 * k >= n && 5 * k < 2 * n).collect();
+    let k = *rng.pick(&ks);
+    let m = (3 * n).div_ceil(5) - k;
+    let nb = if 3 * k + m <= n && rng.chance(1, 2) { 3 } else { 2 };
+    #[derive(Clone)]
+    enum Op { V(K, u64, usize, usize), C(CK, u64, usize, Vec<usize>), B((u64, usize), (u64, usize)) }
+    let mut pre: Vec<Op> = vec![Op::B((1, hp), (0, 0))];
+    for b in 0..nb { pre.push(Op::B((2, h0 + b), (1, hp))); }
+    let pck = *rng.pick(&[CK::Notar, CK::Nf, CK::Ff]);
+    let a = subset_reaching(sim, rng, if pck == CK::Ff { 4 } else { 3 });
+    pre.push(Op::C(pck, 1, hp, a));
+    pre.push(Op::V(K::Skip, 2, 0, sim.own));
+    let mut rest: Vec<usize> = voters.iter().copied().filter(|v| *v != sim.own).collect();
+    rng.shuffle(&mut rest);
+    for b in 0..nb { for _ in 0..k { let v = rest.pop().expect("enough validators"); pre.push(Op::V(K::Notar, 2, h0 + b, v)); } }
+    rng.shuffle(&mut pre);
+    let mut ops = pre;
+    for _ in 0..(m - 1).min(rest.len() as u64) { let v = rest.pop().expect("validator"); ops.push(Op::V(K::Skip, 2, 0, v)); }
+    for v in rest { if rng.chance(1, 2) { ops.push(Op::V(K::Skip, 2, 0, v)); } }
+    if rng.chance(1, 3) { rng.shuffle(&mut ops); }
+    for op in ops {
+        match op {
+            Op::V(k, s, h, v) => run.vote(sim, k, s, h, v, true),
+            Op::C(ck, s, h, a) => run.cert(sim, ck, s, h, &a, &[]),
+            Op::B(b, p) => run.block(sim, b, p),
+        }
+    }
+    run.recover(sim);
+}
+
+/// The parent's certificate arrives when a later slot is already finalized: parent P in slot 1 (registered, not certified),
+/// child C in slot 2 or 3 eligible for safe-to-notar but for the parent certificate (own skip vote, >= 40 % notar - or >= 20 %
+/// notar and >= 60 % with the skip votes), slot f > slot(C) fast-finalized by a received certificate (nothing links it to C's
+/// slot, which stays undecided and retained), then P's notar / notar-fallback / fast-final certificate: C is safe to notar now.
+fn gen_s2n_late_parent(run: &mut Run, sim: &mut Sim, rng: &mut Rng) {
+    let voters: Vec<usize> = (0..sim.n).filter(|v| sim.stakes[*v] > 0).collect();
+    let n = voters.len() as u64;
+    let goff = rng.below(8) as usize * advhash::GROUP as usize;
+    let sc = rng.range(2, 3);
+    let (hp, hc, hf) = (goff + 1, goff + 5 + rng.below(2) as usize, goff + 13);
+    let f = sc + rng.range(1, 3);
+    run.block(sim, (1, hp), (0, 0));
+    run.block(sim, (sc, hc), (1, hp));
+    let mut rest: Vec<usize> = voters.iter().copied().filter(|v| *v != sim.own).collect();
+    rng.shuffle(&mut rest);
+    let mut votes: Vec<(K, usize)> = vec![(K::Skip, sim.own)];
+    if rng.chance(1, 2) {
+        for _ in 0..(2 * n).div_ceil(5) { votes.push((K::Notar, rest.pop().expect("validator"))); }
+    } else {
+        let k = n.div_ceil(5);
+        for _ in 0..k { votes.push((K::Notar, rest.pop().expect("validator"))); }
+        for _ in 0..(3 * n).div_ceil(5) - k - 1 { votes.push((K::Skip, rest.pop().expect("validator"))); }
+    }
+    rng.shuffle(&mut votes);
+    for (k, v) in votes { run.vote(sim, k, sc, hc, v, true); }
+    let a = subset_reaching(sim, rng, 4);
+    run.cert(sim, CK::Ff, f, hf, &a, &[]);
+    if rng.chance(1, 3) { run.recover(sim); }
+    let ck = *rng.pick(&[CK::Notar, CK::Nf, CK::Ff]);
+    let a = subset_reaching(sim, rng, if ck == CK::Ff { 4 } else { 3 });
+    run.cert(sim, ck, 1, hp, &a, &[]);
     run.recover(sim);
 }
 
